@@ -9,6 +9,7 @@ import (
 	"github.com/llir/llvm/ir/constant"
 	"github.com/llir/llvm/ir/enum"
 	"github.com/llir/llvm/ir/types"
+	"github.com/llir/llvm/verifhook"
 	"github.com/pkg/errors"
 )
 
@@ -122,6 +123,7 @@ func (f *Func) LLString() string {
 	if err := f.AssignIDs(); err != nil {
 		panic(fmt.Errorf("unable to assign IDs of function %q; %v", f.Ident(), err))
 	}
+	verifhook.Yield("Func.LLString")
 	buf := &strings.Builder{}
 	if len(f.Blocks) == 0 {
 		// Function declaration.
@@ -153,6 +155,7 @@ func (f *Func) LLString() string {
 func (f *Func) AssignIDs() error {
 	f.mu.Lock()
 	defer f.mu.Unlock()
+	verifhook.Yield("Func.AssignIDs")
 	id := int64(0)
 	setName := func(n namedVar) error {
 		if n.IsUnnamed() {
